@@ -19,7 +19,7 @@ RULE = ("case = history: (unique keys, key dtype, modulus, initial value: defaul
 ASSUMPTIONS = ["moduli are representable in the key dtype and small (one bucket per residue is allocated)"]
 ANCHORS = ["hashtable.py::Counter.count", "hashtable.py::Counter.__init__", "raggedshape.py::ViewBase.ravel_multi_index", "raggedshape.py::RaggedView._get_flat_indices_fast",
            "raggedshape.py::ViewBase.empty_rows_removed", "hashtable.py::HashTable.__getitem__"]
-FLOOR_TAGS = ["init:default", "init:scalar0", "init:scalar", "init:array", "batch:empty", "batch:nokey", "batch:onlykeys", "batch:mixed", "batch:heavy", "batch:collide",
+FLOOR_TAGS = ["init:default", "init:scalar0", "init:scalar", "init:array", "init:array-fractional", "init:array-uint64", "batch:empty", "batch:nokey", "batch:onlykeys", "batch:mixed", "batch:heavy", "batch:collide",
               "batch:wide", "batch:pylist", "batch:othersign", "batch:huge", "keys>=33", "mod:1", "mod:None", "mod:explicit", "state:first-hit-on-scalar0", "state:first-hit-on-scalar", "state:array", "no-hit-call"]
 FLOOR_MONITORS = ["c12:batch", "c12:twin-read-at-end", "c12:twin-one-batch", "c12:twin-resplit", "c12:twin-modulus"]
 N_RANDOM = {"quick": 7500, "thorough": 100000}
@@ -37,7 +37,7 @@ def make(case, mod, keep=None):
     if init == "default":
         return C(ka, **kw)
     if isinstance(init, list):
-        arr = np.array(init)
+        arr = np.array(init, dtype=np.uint64) if any(isinstance(v, int) and v >= 2 ** 63 for v in init) else np.array(init)
         if keep is not None:
             keep.append(arr)      # the caller keeps his start-value array
         return C(ka, arr, **kw)
@@ -67,6 +67,8 @@ def totals(cn, case):
 def run(case):
     keys, kd, mod, init = case["keys"], case["kdtype"], case["mod"], case["init"]
     tags = ["init:" + ("default" if init == "default" else ("array" if isinstance(init, list) else ("scalar0" if init == 0 else "scalar"))),
+            ] + (["init:array-fractional"] if isinstance(init, list) and any(isinstance(v, float) for v in init) else []) + (
+            ["init:array-uint64"] if isinstance(init, list) and any(isinstance(v, int) and v >= 2 ** 63 for v in init) else []) + [
             "mod:" + ("None" if mod is None else ("1" if mod == 1 else "explicit")), "kd:" + (kd or "list")] + (["keys>=33"] if len(keys) >= 33 else [])
     desc0 = "Counter(keys=%s %s, init=%s, mod=%s)" % (kd, short(keys, 120), short(init, 60), mod)
     kept = []
@@ -172,7 +174,15 @@ def gen_history(rng, tier, kd="pick", init=None, mod="pick", nb=None):
         mod2 = 5 if (mod != 5 and hi >= 5) else None
     init = init or rng.choice(["default", 0, 4, "array"])
     if init == "array":
-        init = [rng.randint(0, 9) for _ in keys]
+        u = rng.random()
+        if u < 0.7:
+            init = [rng.randint(0, 9) for _ in keys]
+        elif u < 0.85:
+            init = [rng.randint(0, 40) / 4.0 for _ in keys]                    # fractional start values (exact in binary)
+            init[0] += 0.5 if init[0] == int(init[0]) else 0.0
+        else:
+            init = [rng.choice([2 ** 63 + rng.randint(0, 9), 2 ** 64 - 2 ** 32, 3]) for _ in keys]       # start values beyond the signed 64-bit range
+            init[0] = 2 ** 63 + 5
     m = mod if mod is not None else 2 * n - 1
     ks = set(keys)
     widenable = kd not in (None, "int64", "uint64")
